@@ -54,18 +54,17 @@ theorem jsonNodup_map_str : ∀ names : List String, nodupS names = true →
 theorem wf_numKws (D : Defs) (ty : String) (hty : ty = "number" ∨ ty = "integer") (isInt : Bool)
     (o : NumOpts) (ho : numOptsOk o = true) : wfDraft4 D (.dict (numKws true ty isInt o)) = true := by
   simp only [wfDraft4]
-  have hmax : o.exclMax = true → (getKw "maximum" (numKws true ty isInt o)).isSome = true := by
+  have hmax : exclEff o = true → (getKw "maximum" (numKws true ty isInt o)).isSome = true := by
     intro he
-    simp only [numOptsOk, and_true_iff'] at ho
-    have hm : o.max.isSome = true := by simpa [he] using ho.1
+    simp only [exclEff, and_true_iff'] at he
     cases hmm : o.max with
-    | none => simp [hmm] at hm
+    | none => simp [hmm] at he
     | some m =>
       cases o.mult <;>
         cases hmin : effMin isInt o <;>
           simp [numKws, getKw_append, getKw_optKw, getKw, kw, keyIs, multKey, effMax, hmm]
   revert hmax
-  suffices hh : ∀ ctx, (o.exclMax = true → (getKw "maximum" ctx).isSome = true) →
+  suffices hh : ∀ ctx, (exclEff o = true → (getKw "maximum" ctx).isSome = true) →
       wfKws D ctx (numKws true ty isInt o) = true from fun hmax => hh _ hmax
   intro ctx hmax
   simp only [numKws, wfKws_append, wfKws_optKw, and_true_iff']
@@ -74,17 +73,18 @@ theorem wf_numKws (D : Defs) (ty : String) (hty : ty = "number" ∨ ty = "intege
   · cases hm : o.mult with
     | none => rfl
     | some m =>
-      simp only [numOptsOk, hm, and_true_iff'] at ho
-      have hji : jsNum (PyVal.int m) = some (Q.ofInt m) := rfl
+      simp only [numOptsOk, hm] at ho
+      have hne : m ≠ 0 := by simpa using ho
+      have hji : jsNum (absJ m) = some (Q.ofInt (Int.ofNat m.natAbs)) := rfl
       simp [Option.map, multKey, wfKws, kw, wfNode, kwOf, kwOfStr, wfLeaf, hji, Q.lt, Q.ofInt]
-      simpa using ho.2
+      omega
   · cases hm : effMin isInt o with
     | none => rfl
     | some m => simp [Option.map, wfKws, kw, wfNode, kwOf, kwOfStr, wfLeaf, jsNum_numJ_isSome]
   · cases hm : effMax isInt o with
     | none => rfl
     | some m => simp [Option.map, wfKws, kw, wfNode, kwOf, kwOfStr, wfLeaf, jsNum_numJ_isSome]
-  · cases he : o.exclMax with
+  · cases he : exclEff o with
     | false => rfl
     | true =>
       simp [wfKws, kw, wfNode, kwOf, kwOfStr, keyIs, isBoolJ]
@@ -159,7 +159,6 @@ theorem wf_tupKws (D : Defs) (u : Bool) (ss : List PyVal) (hne : ss.isEmpty = fa
   simp [wfKws, kw, wfNode, kwOf, kwOfStr, wfListV, hs, hne]
 
 theorem wf_mapKws (D : Defs) (key : Option FieldDecl) (vs : Option PyVal) (sz : SizeOpts)
-    (hk : ∀ k, key = some k → mapKeyPattern k = "")
     (hv : ∀ s, vs = some s → wfDraft4 D s = true) :
     wfDraft4 D (.dict (mapKws key vs sz)) = true := by
   simp only [wfDraft4]
@@ -175,9 +174,14 @@ theorem wf_mapKws (D : Defs) (key : Option FieldDecl) (vs : Option PyVal) (sz : 
     | none => rfl
     | some s =>
       have hs := hv s rfl
-      simp only [hk k rfl]
-      cases s <;> simp [wfDraft4] at hs
-      simp [wfKws, kw, wfNode, kwOf, kwOfStr, wfDraft4, hs]
+      cases hk : (mapKeyPattern k != "") with
+      | true =>
+        simp only [hk, if_true]
+        simp [wfKws, kw, wfNode, kwOf, kwOfStr, wfPropsV, wfProps, isStrJ, hs]
+      | false =>
+        simp only [hk, Bool.false_eq_true, if_false]
+        cases s <;> simp [wfDraft4] at hs
+        simp [wfKws, kw, wfNode, kwOf, kwOfStr, wfDraft4, hs]
 
 theorem wf_listKw (D : Defs) (k : String) (hk : k = "anyOf" ∨ k = "oneOf" ∨ k = "allOf")
     (ss : List PyVal) (hne : ss.isEmpty = false) (hs : wfList D ss = true) :
@@ -276,7 +280,8 @@ theorem wf_field (D : Defs) : ∀ f : FieldDecl, wfFragF f = true → RefsFaithf
     simp only [wfFragF] at hf
     simp only [RefsFaithful] at hrf
     simp only [emit]
-    exact wf_tupKws D u [emit true f] rfl (by simp [wfList, wf_field D f hf hrf])
+    exact wf_arrKws D { uniq := u } true (some (emit true f))
+      (fun ctx => wf_itemsSingle D ctx _ (wf_field D f hf hrf))
   | .tuplePos fs u, hf, hrf => by
     simp only [wfFragF, and_true_iff'] at hf
     simp only [RefsFaithful] at hrf
@@ -285,14 +290,13 @@ theorem wf_field (D : Defs) : ∀ f : FieldDecl, wfFragF f = true → RefsFaithf
     rw [emitL_isEmpty]; simpa using hf.1
   | .mapAny sz, _, _ => by
     simp only [emit]
-    exact wf_mapKws D none none sz (fun _ h => by cases h) (fun _ h => by cases h)
+    exact wf_mapKws D none none sz (fun _ h => by cases h)
   | .mapOf k v sz, hf, hrf => by
-    simp only [wfFragF, plainKey, and_true_iff'] at hf
+    simp only [wfFragF, and_true_iff'] at hf
     simp only [RefsFaithful] at hrf
     simp only [emit]
-    refine wf_mapKws D (some k) (some (emit true v)) sz ?_ ?_
-    · intro k' hk'; cases hk'; simpa using hf.1.2
-    · intro s hs; cases hs; exact wf_field D v hf.2 hrf
+    refine wf_mapKws D (some k) (some (emit true v)) sz ?_
+    intro s hs; cases hs; exact wf_field D v hf.2 hrf
   | .struct c fields defaults, hf, hrf => by
     simp only [wfFragF, and_true_iff'] at hf
     obtain ⟨⟨hshape, hdef⟩, hfp⟩ := hf
